@@ -68,7 +68,7 @@ class item:
         self.code_tags = lCodeTags.copy()
 
     def has_code_tag(self, sCodeTag):
-        if self.code_tags == ["all"]:
+        if "all" in self.code_tags:
             return True
         if sCodeTag in self.code_tags:
             return True
